@@ -591,6 +591,14 @@ class ExprMixin:
                 return self.property_value(base, f, node, st)
             if f is not None:
                 return [(V('bound', base, attr), st)]
+            # class-level constant (e.g. `_EMPTY = (0.0, 0)` in the class body), unless an instance attribute of the
+            # same name is assigned somewhere
+            ci = self.prog.classes.get(cls)
+            if ci is not None and attr in ci.aliases and not isinstance(ci.aliases[attr], ast.Name):
+                try:
+                    return [(C(self.fold(ci.aliases[attr], ci.module)), st)]
+                except ValueError:
+                    pass
             return [(V('selfattr', cls, attr), st)]
         types = self.type_of(base, st)
         for t in types:
